@@ -8,12 +8,14 @@ package main
 
 import (
 	"bytes"
+	"context"
 	"encoding/base64"
 	"encoding/binary"
 	"encoding/json"
 	"errors"
 	"fmt"
 	"io"
+	"net/http"
 	"net/http/httptest"
 	"net/url"
 	"reflect"
@@ -218,6 +220,28 @@ func sanitizeJSON(s string) string {
 	var out string
 	json.Unmarshal(b, &out)
 	return out
+}
+
+// markProtocol is an application-defined protocol: it answers every request with a marker.
+type markProtocol struct{}
+
+type markStream struct {
+	ctx context.Context
+	rw  http.ResponseWriter
+}
+
+func (markProtocol) NewStream(rw http.ResponseWriter, req *http.Request) drpchttp.Stream {
+	return &markStream{ctx: req.Context(), rw: rw}
+}
+func (m *markStream) Context() context.Context                  { return m.ctx }
+func (m *markStream) MsgSend(drpc.Message, drpc.Encoding) error { return nil }
+func (m *markStream) MsgRecv(drpc.Message, drpc.Encoding) error { return io.EOF }
+func (m *markStream) CloseSend() error                          { return nil }
+func (m *markStream) Close() error                              { return nil }
+func (m *markStream) Finish(err error) {
+	m.rw.Header().Set("X-Verif-Custom-Protocol", "1")
+	m.rw.WriteHeader(299)
+	m.rw.Write([]byte("custom protocol"))
 }
 
 func checkOutcome(c tcase, fail func(key, format string, args ...interface{})) {
@@ -615,6 +639,46 @@ func gen(tier string, seed uint64) []runner.Scenario {
 			}
 		})
 	}
+
+	// 2b. a protocol registered for one gateway handler does not change what other handlers answer
+	add("protocol-isolation", func(a *acc) {
+		before := drpchttp.New(&script{recv: true, sends: [][]byte{[]byte("ok")}})
+		for _, ct := range append(append([]string{}, allCT...), "*", "application/x-verif-other") {
+			custom := drpchttp.NewWithOptions(&script{}, drpchttp.WithProtocol(ct, markProtocol{}))
+			req := httptest.NewRequest("POST", "/svc/M", bytes.NewReader(nil))
+			sendCT := ct
+			if ct == "*" {
+				sendCT = "application/x-verif-unmatched"
+			}
+			req.Header.Set("Content-Type", sendCT)
+			rec := httptest.NewRecorder()
+			custom.ServeHTTP(rec, req)
+			a.n++
+			if rec.Header().Get("X-Verif-Custom-Protocol") != "1" {
+				a.fail("harness", "the handler with WithProtocol(%q) did not use the registered protocol", ct)
+			}
+		}
+		// handlers without options, created before and after, still speak the built-in protocols
+		for _, ct := range append(append([]string{}, allCT...), "application/x-verif-unmatched", "application/x-verif-other") {
+			for _, h := range []http.Handler{before, drpchttp.New(&script{recv: true, sends: [][]byte{[]byte("ok")}})} {
+				req := httptest.NewRequest("POST", "/svc/M", bytes.NewReader(buildRequest(ct, []byte("hello"))))
+				req.Header.Set("Content-Type", ct)
+				rec := httptest.NewRecorder()
+				h.ServeHTTP(rec, req)
+				a.n++
+				if rec.Header().Get("X-Verif-Custom-Protocol") != "" || rec.Code == 299 {
+					a.fail("protocol-leak", "ct=%q: a gateway handler created without options answered with the protocol another handler registered through WithProtocol", ct)
+				}
+			}
+			c := tcase{ct: ct, req: []byte("hello"), sends: [][]byte{[]byte("ok")}, retTag: "nil"}
+			if strings.HasPrefix(ct, "application/x-verif") {
+				continue
+			}
+			a.n++
+			checkOutcome(c, a.fail)
+		}
+		a.smp = map[string]interface{}{"content_types": len(allCT) + 2}
+	})
 
 	// 3. sizes around the limit: never truncated
 	for _, ct := range allCT {
